@@ -1,9 +1,9 @@
 #!/bin/bash
-# run the property's check against every seeded change found under $1 (default /tmp/seeded/*-out)
+# run the property's check against seeded changes: args = directories containing patch.diff
+# (default: every /tmp/seeded/C*-out/{a,b})
 cd /verif
 for d in ${@:-/tmp/seeded/C*-out/a /tmp/seeded/C*-out/b}; do
-  id=$(basename $(dirname $d) | sed 's/-out//'); v=$(basename $d)
+  name=$(basename $(dirname $d) | sed 's/-out//'); v=$(basename $d); prop=${name%%-*}
   [ -f $d/patch.diff ] || continue
-  [ "$id" = C20 ] && continue
-  tools/mutant.py --patch $id-$v $d/patch.diff $id 2>&1 | tail -1 | cut -c1-330
+  tools/mutant.py --patch $name-$v $d/patch.diff $prop 2>&1 | tail -1 | cut -c1-330
 done
